@@ -118,6 +118,8 @@ type Exec struct {
 	scopes      []int
 	defs        []*Term
 	cbrts       map[int]*Term
+	varBounds   map[int]ival
+	ivMemo      map[int]ival
 	ufTables    map[*Value]*ufTable
 	ufOrder     []*ufTable
 	ufFacts     []*Term
@@ -144,6 +146,7 @@ type Violation struct {
 	Model   map[string]ModelValue
 	Inputs  []InputVal
 	Path    []Decision
+	HasModel bool
 	Kind    string // assert | panic | alloc | steps
 	Detail  string
 	Harness string
@@ -249,6 +252,9 @@ func (e *Exec) assume(c *Term) {
 	}
 	e.pcs = append(e.pcs, c)
 	e.noteVars(c)
+	if e.Cfg.Float != FloatFP {
+		e.noteBounds(c)
+	}
 	e.known[c.ID] = true
 	if c.Op == ONot {
 		e.known[c.Args[0].ID] = false
